@@ -1561,6 +1561,78 @@ Proof.
   - rewrite gen_SI_str_to_sisig_eq. destruct (str_to_sisig s); reflexivity.
 Qed.
 
+(* ---------- math.floor / math.ceil / math.trunc / round of a quantity ---------- *)
+Lemma gen_round_named : forall (rnd : num -> result num) c (a : num) u,
+  (do t4 <- (do t2 <- (do t1 <- gen_Quantity_displayvalue N M (GNamed c a u); rnd t1); Val (GNum t2));
+   do t5 <- (do t3 <- py_attr_unit N (GNamed c a u); Val (Some t3));
+   py_construct_type N M (py_type N (GNamed c a u)) t4 t5)
+  = rmap conc (match displayvalue N M (VNamed c a u) with
+               | Raise e => Raise e
+               | Val d => match rnd d with Raise e => Raise e | Val r => mk N M c (VNum r) (Some u) end
+               end).
+Proof.
+  intros. rewrite gen_Quantity_displayvalue_eq. destruct (displayvalue N M (VNamed c a u)) as [d|e]; [|reflexivity].
+  psimp. destruct (rnd d) as [r|e]; [|reflexivity]. psimp.
+  change (GNum r) with (conc (VNum r)). apply gen_Quantity_construct_eq. reflexivity.
+Qed.
+
+Theorem gen_Quantity___floor___eq : forall X c (a : num) u,
+  gen_Quantity___floor__ N M X (GNamed c a u) = rmap conc (q_round N M X RFloor c a u).
+Proof. intros. unfold gen_Quantity___floor__, q_round. cbv zeta. apply (gen_round_named (m_floor N X)). Qed.
+Theorem gen_Quantity___ceil___eq : forall X c (a : num) u,
+  gen_Quantity___ceil__ N M X (GNamed c a u) = rmap conc (q_round N M X RCeil c a u).
+Proof. intros. unfold gen_Quantity___ceil__, q_round. cbv zeta. apply (gen_round_named (m_ceil N X)). Qed.
+Theorem gen_Quantity___trunc___eq : forall X c (a : num) u,
+  gen_Quantity___trunc__ N M X (GNamed c a u) = rmap conc (q_round N M X RTrunc c a u).
+Proof. intros. unfold gen_Quantity___trunc__, q_round. cbv zeta. apply (gen_round_named (m_trunc N X)). Qed.
+Theorem gen_Quantity___round___eq : forall X c (a : num) u,
+  gen_Quantity___round__ N M X (GNamed c a u) = rmap conc (q_round N M X RRound c a u).
+Proof. intros. unfold gen_Quantity___round__, q_round. cbv zeta. apply (gen_round_named (m_round N X)). Qed.
+
+Lemma gen_round_si : forall (rnd : num -> result num) sg (a : num),
+  (do t2 <- (do t1 <- py_float N (conc (VSI sg a)); rnd t1); gen_SI__val N M (conc (VSI sg a)) t2)
+  = rmap conc (match rnd a with Raise e => Raise e | Val r => Val (VSI sg r) end).
+Proof. intros. psimp. destruct (rnd a) as [r|e]; [|reflexivity]. psimp. apply (gen_SI__val_eq sg a r). Qed.
+
+Theorem gen_SI___floor___eq : forall X sg (a : num),
+  gen_SI___floor__ N M X (conc (VSI sg a)) = rmap conc (si_round N X RFloor sg a).
+Proof. intros. unfold gen_SI___floor__, si_round. cbv zeta. apply (gen_round_si (m_floor N X)). Qed.
+Theorem gen_SI___ceil___eq : forall X sg (a : num),
+  gen_SI___ceil__ N M X (conc (VSI sg a)) = rmap conc (si_round N X RCeil sg a).
+Proof. intros. unfold gen_SI___ceil__, si_round. cbv zeta. apply (gen_round_si (m_ceil N X)). Qed.
+Theorem gen_SI___trunc___eq : forall X sg (a : num),
+  gen_SI___trunc__ N M X (conc (VSI sg a)) = rmap conc (si_round N X RTrunc sg a).
+Proof. intros. unfold gen_SI___trunc__, si_round. cbv zeta. apply (gen_round_si (m_trunc N X)). Qed.
+Theorem gen_SI___round___eq : forall X sg (a : num),
+  gen_SI___round__ N M X (conc (VSI sg a)) = rmap conc (si_round N X RRound sg a).
+Proof. intros. unfold gen_SI___round__, si_round. cbv zeta. apply (gen_round_si (m_round N X)). Qed.
+
+(* the rounding helper of the object's class, by kind *)
+Definition gen_round_eval (X : mathops N) (k : roundkind) (x : pyval) : R N :=
+  match conc x with
+  | GNamed _ _ _ as g =>
+      glift (match k with
+             | RFloor => gen_Quantity___floor__ N M X g | RCeil => gen_Quantity___ceil__ N M X g
+             | RTrunc => gen_Quantity___trunc__ N M X g | RRound => gen_Quantity___round__ N M X g
+             end)
+  | GSI _ _ _ as g =>
+      glift (match k with
+             | RFloor => gen_SI___floor__ N M X g | RCeil => gen_SI___ceil__ N M X g
+             | RTrunc => gen_SI___trunc__ N M X g | RRound => gen_SI___round__ N M X g
+             end)
+  | _ => Raise Unmodelled
+  end.
+
+Theorem gen_round_eval_eq : forall X k x, gen_round_eval X k x = round_eval N M X k x.
+Proof.
+  intros X k [c a u|sg a|v|]; try reflexivity; unfold gen_round_eval, round_eval; cbn [conc].
+  - destruct k; [rewrite gen_Quantity___floor___eq|rewrite gen_Quantity___ceil___eq
+                |rewrite gen_Quantity___trunc___eq|rewrite gen_Quantity___round___eq]; apply glift_conc.
+  - change (GSI a sg (si_unit_text sg)) with (conc (VSI sg a)).
+    destruct k; [rewrite gen_SI___floor___eq|rewrite gen_SI___ceil___eq
+                |rewrite gen_SI___trunc___eq|rewrite gen_SI___round___eq]; apply glift_conc.
+Qed.
+
 (* ---------- the closed world is closed: what a call returns is again an object of it ---------- *)
 Lemma mk_ok : forall c v u r, mk N M c v u = Val r -> val_ok r.
 Proof.
@@ -1739,9 +1811,10 @@ Theorem conversion_generated_agree :
   (forall v u, is_quantity N v = false -> gen_SI_construct N M (conc v) u = rmap conc (mk_si N v u)) /\
   (forall op x, gen_unop_eval N M op x = unop_eval N M op x) /\
   (forall op c a u y, match op with Add | Sub | Cmp _ => True | _ => False end ->
-     gen_binop_eval N M op (VNamed c a u) y = binop_eval N M op (VNamed c a u) y).
+     gen_binop_eval N M op (VNamed c a u) y = binop_eval N M op (VNamed c a u) y) /\
+  (forall X k x, gen_round_eval N M X k x = round_eval N M X k x).
 Proof.
-  repeat split; intros.
+  repeat split; intros; try apply gen_round_eval_eq.
   - eapply gen_Quantity_construct_eq; eauto.
   - apply gen_Quantity_displayvalue_eq.
   - apply gen_Quantity_as_unit_eq.
@@ -1892,6 +1965,21 @@ Theorem gen_unary_named : forall c q a u, get_class T c = Some q ->
   gen_unop_eval N M Abs (VNamed c a u) = Val (OVal (VNamed c (fabs N a) u)) /\
   gen_unop_eval N M Pos (VNamed c a u) = Val (OVal (VNamed c a u)).
 Proof. intros c q a u Hc. rewrite !gen_unop_eval_eq. eapply unary_named; eauto. Qed.
+
+(* the generated __floor__ / __ceil__ / __trunc__ / __round__ act on the display value and keep the unit *)
+Theorem gen_round_on_display_value : forall (X : mathops N) k c q a u f n d dv r,
+  get_class T c = Some q -> glookup u (qc_units q) = Some (GFac f n d) -> n <> 0%Z ->
+  gen_Quantity_displayvalue N M (GNamed c a u) = Val dv -> round_with X k dv = Val r ->
+  gen_round_eval N M X k (VNamed c a u) = Val (OVal (VNamed c (fmul N r (ffac N f n d)) u)) /\
+  gen_Quantity_displayvalue N M (GNamed c (fmul N r (ffac N f n d)) u) = Val r.
+Proof.
+  intros X k c q a u f n d dv r Hc Hu Hn Hd Hr. rewrite gen_Quantity_displayvalue_eq in *.
+  assert (H : q_round N M X k c a u = Val (VNamed c (fmul N r (ffac N f n d)) u) /\
+              displayvalue N M (VNamed c (fmul N r (ffac N f n d)) u) = Val r)
+    by (eapply round_on_display_value; eauto).
+  destruct H as [H1 H2]. split; [|exact H2].
+  rewrite gen_round_eval_eq. unfold round_eval. rewrite H1. reflexivity.
+Qed.
 
 Theorem gen_str_total : forall c q a u f n d, display_units_ok T = true ->
   get_class T c = Some q -> glookup u (qc_units q) = Some (GFac f n d) -> n <> 0%Z ->
